@@ -738,6 +738,7 @@ void File::uncompressedFile2ReadWriteQueue() {
     }
 
     /* read object */
+    const std::streampos begin = m_uncompressedFile.tellg();
     obj->read(m_uncompressedFile);
     if (!m_uncompressedFile.good()) {
         delete obj;
@@ -746,6 +747,11 @@ void File::uncompressedFile2ReadWriteQueue() {
 
     if (tmp!=0) {
         m_uncompressedFile.seekg(tmp);
+
+        /* never go back behind the declared end of the object just read: the reader has to make progress */
+        const std::streampos declaredEnd = begin + static_cast<std::streamoff>(declaredSize);
+        if (m_uncompressedFile.tellg() < declaredEnd)
+            m_uncompressedFile.seekg(declaredEnd - m_uncompressedFile.tellg());
     }
 
     /* the object belongs to the application as soon as it is in the queue: look at it before */
